@@ -48,11 +48,11 @@ def plan(tier, seed):
         for g in firsts:
             shards.append({"part": "convert", "prefix": f + g, "plen": plen, "bound": f"glob conversion patterns<={plen}"})
     shards.append({"part": "convert", "prefix": "", "plen": 1, "bound": f"glob conversion patterns<={plen}"})
-    n_entries = 3 if tier == "quick" else 4
+    n_entries = 4 if tier == "quick" else 5
     trees = tree_space(n_entries)
     step = 12 if tier == "quick" else 24
     for lo in range(0, len(trees), step):
-        shards.append({"part": "scan", "lo": lo, "hi": lo + step, "n": n_entries, "tuple": 1 if tier == "quick" else 2,
+        shards.append({"part": "scan", "lo": lo, "hi": lo + step, "n": n_entries, "tuple": 2,
                        "bound": f"trees<={n_entries} entries"})
     shards.append({"part": "feature", "tuple": 2, "bound": "feature trees"})
     return {"shards": shards, "require_nonzero": ["convert:match", "convert:nomatch", "scan:partial", "scan:none", "regex", "glob"]}
